@@ -1,6 +1,7 @@
 """C03 — every valid stream decodes to its plaintext (tables / grammar / bit discipline only)."""
 from rules import inflate_core as ic
 from rules import tables
+from rules import tokens
 
 
 def run(ctx):
@@ -16,5 +17,9 @@ def run(ctx):
         ic.rule_repeat_run(ctx, cfg, r3, exact=False)
         r8 = ctx.rule("R03.8" + sfx, "Huffman tables are rebuilt from scratch: whole fast table overwritten, whole overflow tree zeroed (litlen / dist) before insertion", floor=12, config=cfg)
         ic.rule_tables_from_scratch(ctx, cfg, r8)
+        r5 = ctx.rule("R03.5" + sfx, "token reconstruction: bits consumed as used; length = LENGTH_BASE[sym-257]+extra, distance = DIST_BASE[sym]+extra, "
+                      "copy and literal writes — fast path and slow-path states", floor=20, config=cfg)
+        tokens.rule_fast_tokens(ctx, cfg, r5)
+        tokens.rule_slow_tokens(ctx, cfg, r5)
         r6 = ctx.rule("R03.6" + sfx, "slow-path Huffman walk reads only bits that are in the buffer", floor=2, config=cfg)
         ic.rule_bit_reads(ctx, cfg, r6)
